@@ -7,11 +7,12 @@ import numpy as np
 from .. import cases, monitors
 
 TITLE = "Shuffle sampler emits wrapped translations with separated pivots"
-DECIDING = ["M-SHUFFLE", "M-SEPARATION", "M-INTEGRAL", "M-REINIT"]
+DECIDING = ["M-SHUFFLE", "M-SEPARATION", "M-INTEGRAL", "M-REINIT", "M-CONCURRENT-DRAWS"]
 LEVEL = "exploration"
 RULE = ("seeded random reference continua (2-5 annotators, some possibly empty, labelled and unlabelled, integer / "
         "dyadic / generic times, negative times, default bounds or reset bounds) x ground-truth subsets (>= 2, holding at "
         "least one unit) x both pivot types x 30 (quick) / 100 (thorough) draws each; in 30 % of the cases the same "
+        "cases 2-4 threads then draw from the same sampler concurrently (switch interval 1e-6); in 30 % the "
         "sampler object is then re-initialised on a second reference with much longer units and sampled again; for every sample the monitor "
         "infers, from the output alone, for each sampled annotator a source annotator and a pivot that explain all its "
         "units (translation, wrap-around by the continuum's length, same labels and durations), then checks pivot "
@@ -220,6 +221,31 @@ def _check_reference(ctx, case, sampler, cspec, ground_truth):
             ctx.fail_exc(f"sampling-raises:{type(e).__name__}", e, monitor="M-SHUFFLE")
             return
         check_sample(ctx, case, ref, gt, sample, list(_spy["pivots"]))
+    # several threads drawing from the SAME initialised sampler at once (each draw must still obey the statement)
+    if case.get("threads") and not case.get("_threaded_done"):
+        import sys
+        import threading
+        ctx.count("M-CONCURRENT-DRAWS")
+        samples, errors = [], []
+
+        def draw(k):
+            try:
+                for _ in range(k):
+                    samples.append(sampler.sample_from_continuum)
+            except Exception as e:   # noqa
+                errors.append(e)
+        old_sw = sys.getswitchinterval()
+        sys.setswitchinterval(1e-6)
+        try:
+            ts = [threading.Thread(target=draw, args=(max(5, case["draws"] // 2),)) for _ in range(case["threads"])]
+            [t.start() for t in ts]
+            [t.join() for t in ts]
+        finally:
+            sys.setswitchinterval(old_sw)
+        for e in errors[:1]:
+            ctx.fail(f"concurrent-sampling-raises:{type(e).__name__}", {"message": str(e)[:200]}, monitor="M-SHUFFLE")
+        for sample in samples:
+            check_sample(ctx, dict(case, _concurrent=True), ref, gt, sample, [])
     if monitors.diff_snap(before, monitors.snapshot_continuum(continuum)):
         ctx.fail("reference-modified-by-sampling", {"diff": monitors.diff_snap(before, monitors.snapshot_continuum(continuum))},
                  monitor="M-SHUFFLE")
@@ -253,6 +279,8 @@ def gen_case(ctx):
     case = {"continuum": cspec, "ground_truth": gt, "pivot_type": rng.choice(["int_pivot", "float_pivot"]),
             "reset_bounds": rng.random() < 0.5, "np_seed": rng.randrange(2 ** 31),
             "draws": 30 if ctx.tier == "quick" else 100}
+    if rng.random() < 0.25:
+        case["threads"] = rng.choice([2, 4])
     if rng.random() < 0.3:
         # a second reference for the same sampler object: long units spread over a long continuum (other average length)
         n2 = rng.randint(2, 3)
